@@ -77,9 +77,10 @@ def run(rep):
         rep.violation('harness does not build against /repo:\n' + out[-2000:], ['# go build failed'], no_input=True); return
     with ThreadPoolExecutor(max_workers=SHARDS) as ex:
         res = list(ex.map(lambda i: run_shard(binary, os.path.join(wd, 's%d' % i), i), range(SHARDS)))
-    cells = {}; model = {}
+    cells = {}; model = {}; skipped = []
     for ops, impl, mdl in res:
         for o, i, m in zip(ops, impl, mdl):
+            if i == 'skipped': skipped.append(o); continue   # the harness gave up on this shard after repeated hangs
             cells[o] = i; model[o] = m
     diffs = [(o, cells[o], model[o]) for o in cells if cells[o] != model[o]]
     # a setup failure can be a timing hiccup of the real poller: re-run those cells alone before judging
@@ -93,10 +94,11 @@ def run(rep):
         diffs = [(o, cells[o], model[o]) for o in cells if cells[o] != model[o]]
     bad = oracle(cells)
     hist = collections.Counter(r.split(' B=')[0].split('|')[0].strip().split(':')[0] for r in cells.values())
-    rep.cov.update(evaluations=len(cells), distinct_nontrivial=len(set((o.split()[1], o.split()[7], r) for o, r in cells.items())), exhaustive=True,
+    rep.cov.update(evaluations=len(cells), distinct_nontrivial=len(set((o.split()[1], o.split()[7], r) for o, r in cells.items())), exhaustive=not skipped,
                    rule='every cell of {user, peer, peer-then-user, detach} x {no callback, OnConnect set} x {input empty, 10 bytes buffered} x {output empty, 5 bytes malloc\'ed} x {slot not reused, reused by a new connection} x {no read timeout, read timeout set and an earlier read timed out} '
                         'x 23 methods x arguments (<= buffered, > buffered, 0; delimiter present/absent) x {once, twice}, on real connections (socketpair, real poller); distinct_nontrivial = distinct (mode, method, outcome) triples',
                    samples=[o + ' => ' + cells[o] for o in list(cells)[:3] + list(cells)[-2:]], outcome_histogram=dict(hist), traces_validated_against_impl=len(cells))
+    if skipped: rep.notes.append('%d cells not executed: the harness stops a shard after 6 cells that hang or get stuck' % len(skipped))
     rep.assumptions += ['cells are executed after the close has completed (quiescent); concurrency of the close itself is C05',
                         'deadlines / timeouts are not set in the table']
     if bad:
